@@ -273,7 +273,8 @@ func cmdPrompt(args []string) int {
 	defer w.close()
 	r := newRng(c.seed)
 	kinds := []string{"producer-error", "producer-crash", "producer-deploy-fail", "needs-crashed-of-succeeding-step",
-		"needs-closed-of-succeeding-step", "needs-deploy-failed-of-succeeding-step", "wait-optional-on-crashed-of-succeeding-step"}
+		"needs-closed-of-succeeding-step", "needs-deploy-failed-of-succeeding-step", "wait-optional-on-crashed-of-succeeding-step",
+		"waits-for-crashed-stage-of-succeeding-step"}
 	for i := 0; i < c.n; i++ {
 		cr := r.fork()
 		if i < c.skip {
@@ -309,6 +310,13 @@ func cmdPrompt(args []string) int {
 			out.put("v", expr("$.steps.a.closed.result"))
 		case "needs-deploy-failed-of-succeeding-step":
 			out.put("v", expr("$.steps.a.deploy_failed.error"))
+		case "waits-for-crashed-stage-of-succeeding-step":
+			// the only producer of the output waits for a STAGE (not an output) that step a, which succeeds, never goes
+			// through: once a has completed, that stage node is settled as impossible and so is everything behind it
+			wf.Steps = append(wf.Steps, AStep{ID: "c", Kind: "plugin", PlugStep: "op", Src: "c", Fields: map[string]AIn{
+				"input": amap("s", lit("w")), "wait_for": expr("$.steps.a.crashed"), "closure_wait_timeout": lit("100")}})
+			beh["c"] = Behaviour{Outcome: "success"}
+			out.put("v", expr("$.steps.c.outputs.success.s"))
 		default:
 			out.put("v", AIn{K: "optional", Wait: true, Src: "$.steps.a.crashed.error.output"})
 			out.put("w", expr("$.steps.a.outputs.success.s"))
@@ -319,8 +327,8 @@ func cmdPrompt(args []string) int {
 			map[string]any{"name": "nm"}, engineOpts{cancelAfterMs: -1}, 4*time.Second)
 		res["kind"] = "prompt"
 		res["shape"] = kind
-		// every shape but the last leaves no producible output; in the last one the output becomes producible (with the
-		// wait-optional member absent) as soon as step a has finished, because its crashed stage cannot happen any more
+		// every shape but the wait-optional one leaves no producible output; in that one the output becomes producible (with
+		// the wait-optional member absent) as soon as step a has finished, because its crashed stage cannot happen any more
 		res["expect"] = "error"
 		if kind == "wait-optional-on-crashed-of-succeeding-step" {
 			res["expect"] = "output"
